@@ -815,6 +815,62 @@ def popped_keywords(ctx, rule="RJ"):
                   bad=bad[0] if bad else "", line=bad[1] if bad else None)
 
 
+LOSSY_KEY_PARTS = {"size", "shape", "ndim", "dtype"}
+LOSSY_KEY_CALLS = {"mean", "std", "var", "min", "max", "sum", "len", "id", "float", "int", "round", "ptp", "median", "amin", "amax", "nanmin", "nanmax", "nanmean", "hash"}
+
+
+def lossy_cache_reads(ctx, rule="RH"):
+    """A result taken from a module-level container that the package itself fills (a cache) under a key built only from SUMMARIES of the
+    arrays it stands for (size, shape, mean, std, min, max, id ...): finitely many statistics cannot identify an array, so a later call with
+    other data and the same statistics is answered with the earlier call's result.  (A key that contains the array's bytes is not lossy.)"""
+    import ast
+    filled = set()
+    for q, f in ctx.pkg.functions.items():
+        fa = ctx.an.fa(q)
+        if not fa.ok:
+            continue
+        for p in fa.paths:
+            for e in p.events:
+                if e.kind == "store" and e.data[0][0] == "glob" and e.data[0][1].startswith(ctx.pkg.name + "."):
+                    filled.add(e.data[0][1])
+    for qn in scope(ctx):
+        fa = ctx.an.fa(qn)
+        if not fa.ok:
+            continue
+        bad = None
+        for fx in ([fa] + list(fa.nested.values())) if filled else []:
+            for p in fx.paths:
+                terms = [p.value] if isinstance(p.value, tuple) else []
+                terms += [d for e in p.events if e.kind == "call" for d in e.data if isinstance(d, tuple)]
+                for t in terms:
+                    for x in walk(t):
+                        if not (isinstance(x, tuple) and x and x[0] == "sub" and x[1][0] == "glob" and x[1][1] in filled):
+                            continue
+                        key = x[2]
+                        arr_parts = [y for y in walk(key) if isinstance(y, tuple) and y and y[0] in ("param", "elem")]
+                        if not arr_parts:
+                            continue
+                        def lossy(k):
+                            if k[0] in ("const",):
+                                return True
+                            if k[0] == "attr" and k[2] in LOSSY_KEY_PARTS:
+                                return True
+                            if k[0] == "call" and str(callee(k)).rsplit(".", 1)[-1] in LOSSY_KEY_CALLS:
+                                return True
+                            if k[0] in ("tuple", "list"):
+                                return all(lossy(i[1] if i[0] == "star" else i) for i in k[1])
+                            if k[0] == "comp":
+                                return lossy(k[2])
+                            if k[0] == "call" and callee(k) in ("builtins.tuple", "builtins.list") and k[2]:
+                                return lossy(k[2][0])
+                            return False
+                        if lossy(key):
+                            bad = bad or ("a result is read from the module-level cache %s under a key made only of summaries of the arrays (%s): another data set with the same summaries gets the "
+                                          "earlier result" % (x[1][1], show(key)[:70]), p.line)
+        ctx.check(rule, qn + "|no-result-from-a-cache-keyed-by-summaries", False if bad else True, "no result is read from a module-level cache under a lossy key", fn=qn, nontrivial=False,
+                  bad=bad[0] if bad else "", line=bad[1] if bad else None)
+
+
 class _Sentinel:
     kind, data, line = "end", (), None
 
